@@ -614,6 +614,35 @@ func driveJournal(seed uint64, n int, size int, em *Emitter, exhaustive bool) {
 			}
 		}
 		em.Op("C16", "S det", verdict)
+		// C12 specification: the journal instructions behave alike in static and non-static frames
+		if forkIndex(c.fork) >= forkIndex("Byzantium") {
+			c2 := *c
+			c2.static = !c.static
+			ce, buf := captureEmitter()
+			runJCase(&c2, ce, "C12", nil)
+			pick := func(b *[][3]string) []string {
+				var o []string
+				for _, l := range *b {
+					if strings.HasPrefix(l[1], "J ") || strings.HasPrefix(l[1], "S jeffect") {
+						o = append(o, l[1]+"=>"+l[2])
+					}
+				}
+				return o
+			}
+			v := "same"
+			x, y := pick(first), pick(buf)
+			if len(x) != len(y) {
+				v = fmt.Sprintf("differs:executed_%d_vs_%d_journal_steps", len(x), len(y))
+			} else {
+				for k := range x {
+					if x[k] != y[k] {
+						v = "differs:" + strings.ReplaceAll(x[k]+"_VS_"+y[k], " ", "_")
+						break
+					}
+				}
+			}
+			em.Op("C12", "S static-same", v)
+		}
 	}
 	// (B) value journal vs Solidity packed layout
 	forks := forkNames
